@@ -14,7 +14,10 @@ def check(ctx):
                        "every second step extract(root, recurse_child_tasks=True) must be isomorphic to the spec's tree "
                        "(nurseries in nesting order by identity, children matched by root identity, is_exiting on the nursery "
                        "being left, no error, no warning); the spec's tree is first checked against Trio's own "
-                       "child_nurseries / child_tasks; to_thread/from_thread ping-pong of depth 0..2 from outside and inside")
+                       "child_nurseries / child_tasks; to_thread/from_thread ping-pong of depth 0..2 from outside and inside; "
+                       "any task may also install a greenback portal (action Ensure) and then waits for its commands in a "
+                       "synchronous function through await_, so that its async frames and nursery blocks sit on a suspended "
+                       "greenlet's stack: the expected tree is unchanged")
     ctx.assume("3.12 only (trio lives in the project venv)")
     r = ctx.tlc(run_tlc("TaskTree", "TaskTree.cfg", timeout=900), "tree evolutions, 4 tasks, exhaustive under VIEW")
     if not r.ok:
